@@ -10,6 +10,7 @@ import KVerif.Drv.C14
 import KVerif.Drv.C18
 import KVerif.Drv.C07
 import KVerif.Drv.C01
+import KVerif.Drv.C12
 open KVerif.Drv
 
 /-- kvdrv <prop>: one case line in, one `M <model> ## S <spec>` line out. -/
@@ -32,6 +33,7 @@ def dispatch (prop : String) : Option (String → String × String) :=
   | "C07o" => some C07o.runOracle
   | "C18o" => some C18.runOracle
   | "LALL" => some (Lay.run "LAY")
+  | "C12" => some C12.run
   | _ => none
 
 partial def loop (h : IO.FS.Stream) (out : IO.FS.Stream) (f : String → String × String) : IO Unit := do
